@@ -270,8 +270,16 @@ func (c *connection) sendWaitReply(callerCtx context.Context, msg Message) (Mess
 	timer := pool.GetTimer(timeout)
 	defer pool.PutTimer(timer)
 
+wait:
 	select {
 	case res := <-ch:
+		// System Bytes alone do not make a frame this transaction's reply: a control response
+		// (Select/Deselect/Linktest.rsp) that merely reuses the System Bytes of an open DATA
+		// transaction must not complete it with a nil reply. Keep waiting for the data reply / T3.
+		if isData && res.err == nil && res.msg != nil && res.msg.Type() != DataMsgType {
+			goto wait
+		}
+
 		return res.msg, res.err
 	case <-timer.C:
 		// Protocol timeout: T3 (data) — a transaction failure.
